@@ -189,8 +189,8 @@ def lock_case(ctx, ts):
 
 
 def blocks(tier, seed):
-    anchors = ANCHORS if tier != 'quick' else ANCHORS
-    ts_list = [a for a in ANCHORS if a >= 2]
+    anchors = ANCHORS if tier == 'quick' else sorted(set(ANCHORS + [(1 << k) + d for k in range(3, 73) for d in range(-2, 3)] + list(range(0, 300))))
+    ts_list = [a for a in anchors if a >= 2]
     return [
         Block('CHECK_TIMESTAMP_grid', anchors, cts_case, 't x c in t+-2 x every encoding 1..9 bytes x thr x now around thr', nshards=len(anchors)),
         Block('CHECK_EPOCH_grid', anchors, ce_case, 'c x encodings x ethr x now around ethr', nshards=len(anchors)),
@@ -203,7 +203,7 @@ def meta(tier, seed):
         rule='complete grid: anchors {0,1,2} + 2^k+d (k in 7,8,15,16,31,32,62,63,64; |d|<=2), constraint c=t+-2 in every 1..9 byte '
              'unsigned encoding, thresholds, clock positions +-2 around the slack threshold; pure-arithmetic oracle from the statement',
         states_meaning='distinct (t, c, encoding length, threshold, clock offset, form) grid points; transitions = instructions',
-        bounds={'anchors': len(ANCHORS), 'ts_thresholds': THRS, 'epoch_thresholds': ETHRS},
+        bounds={'anchors': len(ANCHORS) if tier == 'quick' else 'every 2^k+-2 for k=3..72 and 0..299', 'ts_thresholds': THRS, 'epoch_thresholds': ETHRS},
         assumptions=['the "random 63-bit values" clause is replaced by every width boundary on both sides',
                      'clock is the virtual clock bound into functions.time/tools.time before import; it returns exact Python ints (a float clock cannot represent the 2^62..2^64 anchors)'],
     )
